@@ -50,7 +50,7 @@ class FakeSocket:
       k = min(k, len(data)) if isinstance(k, int) else k
       self.sent.append(data[:k]); return k
     self.sent.append(data); return len(data)
-  def fileno(self): return self.fd
+  def fileno(self): return -1 if self.closed else self.fd          # (a closed socket object reports -1, like the real one)
   def close(self): self.closed = True
   def shutdown(self, how=None): self.shut = True
   def setblocking(self, b): pass
